@@ -66,6 +66,8 @@ def finding_key(req, obs, detail):
               (pa[0] == "s" and pb[0] == "v" and pb[2] == "1" and pa[1] == pb[1])
         if (one or la == lb) and "c" not in ma:
             return "rvalue passed to out/inout parameter: T <-> T1 or modifier-only conversion of an lvalue argument"
+    if re.match(r"FAIL:swizzle with \d+ components$", d):
+        return "scalar / vector swizzle with more than four components"
     if re.match(r"FAIL:inexact default argument: requires (\S+) but receives (\S+)", d):
         return "default argument is neither checked against nor converted to the parameter type"
     m = re.match(r"FAIL:(assignment|increment|out/inout argument) writes to a const object per the declarations: (\S+)$", d)
@@ -229,6 +231,7 @@ SPEC = {
         "elab_rejects_aggregate_dimension", "elab_rejects_aggregate_matrix",
         "elab_rejects_ctor_count", "elab_rejects_ctor_of_non_numeric", "elab_ctor_exact",
         "elab_rejects_index_type", "elab_index_exact", "elab_rejects_write_to_repeated_swizzle",
+        "matrix_swizzle_at_most_four", "vector_swizzle_longer_than_four_accepted",
         "elab_rejects_const_write_chain", "elab_rejects_const_increment_chain", "elab_rejects_const_array_write_chain",
         "elab_rejects_const_out_arg_chain", "elab_rejects_readonly_resource_write_chain", "elab_rejects_rvalue_write_chain_partial",
         "elab_rejects_rvalue_out_arg_chain_partial",
